@@ -1088,8 +1088,8 @@ PROPS["C15"] = dict(
 )
 
 PROPS["C17"] = dict(
-    profile=dict(p_doc=0.6, p_pub=0.5, p_markers=0.6, p_packed=0.2, p_vftable=0.4, p_impl=0.5, p_base=0.3, enums=(0, 3), p_backend=0.0,
-                 extern_values=(0, 1)),
+    profile=dict(p_doc=0.6, p_pub=0.5, p_markers=0.6, p_packed=0.25, p_vftable=0.4, p_impl=0.5, p_base=0.3, enums=(0, 3), p_backend=0.0,
+                 extern_values=(0, 1), packed_clone=True),
     n=(400, 6000), corpus=["common", "C17"],
     aspects=["verdict", "vis", "derive", "repr", "enum_repr", "doc", "items"],
     monitors=[mon_c17],
